@@ -40,6 +40,27 @@ def outcome(r):
     return (r.hv[0], tuple(r.hv[1]) if r.hv[0] == "noprogress" and r.hv[1] else None, tuple(sorted(P.file_hashes(r.h).items())))
 
 
+def ambiguous_imports(rng):
+    """2..3 modules define the same short name with different sizes; the observer imports all of them (as
+    types or as modules, in a random order) and uses the name by value, behind a pointer, in a function and
+    in an extern value.  Which definition wins is fixed by the order of the use lines -- never by a hash."""
+    name = rng.choice(["Handle", "Node", "Vec3"])
+    k = rng.randint(2, 3)
+    mods = rng.sample(["gfx", "audio", "net", "core::io", "core::math"], k)
+    files = {}
+    for i, m in enumerate(mods):
+        files[m.replace("::", "/") + ".pyxis"] = "pub type %s { pub a: [u8; %d] }\npub type Other%d { pub x: u32 }\n" % (name, 4 * (i + 1), i)
+    by_type = rng.random() < 0.5
+    order = list(mods)
+    rng.shuffle(order)
+    uses = "".join("use %s%s;\n" % (m, "::" + name if by_type else "") for m in order)
+    files["owner.pyxis"] = uses + (
+        "#[packed]\npub type Owner {\n    pub h: %s,\n    pub p: *const %s,\n    pub arr: [%s; 2],\n}\n"
+        "impl Owner {\n    #[address(0x1000)]\n    pub fn get(&self, x: *mut %s) -> *const %s;\n}\n"
+        "#[address(0x2000)]\npub extern g_h: %s;\n" % ((name,) * 6))
+    return files
+
+
 def runner(pid, prop, tier, seed, scratch, replay=None):
     rng = random.Random(seed)
     ninputs, budget, nfresh = (40, 24, 4) if tier == "quick" else (250, 100, 8)
@@ -51,6 +72,14 @@ def runner(pid, prop, tier, seed, scratch, replay=None):
         base = props.load_corpus(["common", "C09"])
         for c in base:
             inputs.append((c["files"], c["ptr"], None))
+        # inputs whose use lists make names ambiguous (the same short names in several modules, imported as
+        # types and through modules): the binding must still be a function of the input, not of a hash seed
+        import gen_special
+        for j in range(6 if tier == "quick" else 60):
+            files, exp = gen_special.gen_c11(seed * 7717 + j, 4 if j % 2 == 0 else 8)
+            inputs.append((files, 4 if j % 2 == 0 else 8, exp))
+        for j in range(8 if tier == "quick" else 60):
+            inputs.append((ambiguous_imports(random.Random(seed * 9176 + j)), 4 if j % 2 == 0 else 8, None))
         i = 0
         while len(inputs) < ninputs + len(base):
             files, exp = gen.generate(seed * 100003 + i, 4 if i % 2 == 0 else 8, PROFILE)
